@@ -354,6 +354,14 @@ func (s *PathState) load(in *ssa.UnOp) *Term {
 				}
 			}
 			if fields != nil {
+				// fields of a fresh local that were never assigned hold their zero value
+				if st, ok := in.Type().Underlying().(*types.Struct); ok && a.Op == "alloc" && s.memver[r.K] == 0 {
+					for i := 0; i < st.NumFields(); i++ {
+						if _, set := fields[st.Field(i).Name()]; !set {
+							fields[st.Field(i).Name()] = zeroTerm(st.Field(i).Type())
+						}
+					}
+				}
 				ver := ""
 				if n := s.memver[r.K]; n > 0 {
 					ver = fmt.Sprintf("#%d", n)
